@@ -26,6 +26,12 @@ CHECK_DEADLOCK FALSE
 """
 
 
+ALL_STEP_KINDS = ["gen:idle>sent", "gen:idle>closed", "f:recv>got", "f:recv>exit", "f:got>send", "f:got>filling", "f:filling>send", "f:send>recv", "f:exit>done",
+                  "m:recv>send", "m:recv>exit", "m:send>recv", "m:send>exit", "mclose:close>closed", "s:recv>errsend", "s:recv>write", "s:recv>close",
+                  "s:errsend>recv", "s:errsend>free", "s:write>writing", "s:writing>free", "s:writing>errsend", "s:free>recv", "s:close>exit",
+                  "e:idle>got", "e:idle>closed"]
+
+
 def schedules(ctx, R, W, cancel, num, seed):
     d = ctx._spec_dir()
     name = "PacketScanSched_R%dW%d%s" % (R, W, "c" if cancel else "n")
@@ -99,9 +105,14 @@ def gate_replay(ctx, configs, cancel_every, label="gate"):
         ok, info = ctx.tlc_trace("PacketScanL1Trace", base + "-l1.ndjson", cfg=cfg, timeout=3000)
         return cfg, ev, ok, info
     lf = [(R, W, ex.submit(l1, R, W, base)) for (R, W, base, ns) in groups if os.path.exists(base + "-l1.ndjson")]
+    kinds = {}
     for R, W, f in lf:
         cfg, ev, ok, info = f.result()
         steps += len(ev)
+        for e in ev:
+            if e.get("ev") == "Step":
+                k = "%s:%s>%s" % (e["p"], e["from"], e["to"])
+                kinds[k] = kinds.get(k, 0) + 1
         ctx.cov["traces_validated_against_impl"] += len(vf.split_runs(ev))
         if not ok and drift is None:
             drift = "PacketScanL1Trace (R=%d W=%d) rejects step %d: %s" % (R, W, info["index"], info["event"][:400])
@@ -122,8 +133,12 @@ def gate_replay(ctx, configs, cancel_every, label="gate"):
                 ctx.step("selftest-PacketScanL1Trace", corrupted="request id of a received request changed", rejected=True)
                 ctx._l1_selftest = True
     ctx.count(steps)
+    # vacuity: every kind of step the trace specification knows (one per disjunct of TGen / TF / TM / TMClose / TS / TE) was taken by the real code
+    never = sorted(set(ALL_STEP_KINDS) - set(kinds))
     ctx.step("gate-replay", configs=[list(c) for c in configs], runs=nruns, steps=steps, seam_events=nev, hung=len(hung),
-             cancel_every=cancel_every)
+             cancel_every=cancel_every, step_kinds=kinds, step_kinds_never_taken=never)
+    if never and not violated and not drift:
+        ctx.notes.append("gate replay: step kinds never taken by the real code in this run: %s" % never)
     if (drift or hung) and not violated:
         raise vf.Inconclusive("the real goroutines no longer follow the goroutine-level model PacketScan step by step (no clause of the "
                               "property is violated on the seam events, so this is model drift, not a verdict): %s %s" % (drift or "", "; ".join(hung)[:1500]))
